@@ -38,13 +38,15 @@ Record spec := {
   sp_exts : list sext      (* Extensions *)
 }.
 
-(* One predefined ClientHelloID: its name (without "Hello"), the spec of the
-   first UTLSIdToSpec call, and - only when some of the 16 calls returned a
-   different extension order - the extension lists of calls 2..16. *)
+(* One predefined ClientHelloID: its name (without "Hello"), the spec UTLSIdToSpec
+   returns, and whether the 16 calls of the translator returned different
+   extension orders (ShuffleChromeTLSExtensions). For a shuffling id the
+   extension list is in the translator's canonical order: GREASE / padding /
+   pre_shared_key in their slots, the rest sorted by extension type. *)
 Record parrot := {
   p_name : bytes;
   p_spec : spec;
-  p_draws : list (list sext)
+  p_shuffles : bool
 }.
 
 (* What ApplyPreset reads from the Config. [c_sni] is hostnameInSNI(Config.ServerName)
